@@ -1,0 +1,98 @@
+// Verification hooks. This module only exists when the crate is built with
+// `--cfg edp_rs_verif`; normal builds do not contain it and every call site is
+// behind the same cfg, so the hooks cost nothing and change nothing.
+
+//! Scheduling gates and environment overrides for the model-checking harness in /verif.
+//!
+//! A harness installs a [`Handler`] for the current thread (one `current_thread` runtime per
+//! thread). `point(label).await` then parks the calling task until the handler releases it;
+//! without a handler it is ready immediately.
+
+use std::future::Future;
+use std::pin::Pin;
+use std::sync::{Arc, RwLock};
+use std::task::{Context, Poll};
+use std::thread::ThreadId;
+
+pub trait Handler: Send + Sync {
+    /// A task reached the gate `label`; returns a ticket for `released`.
+    fn arrive(&self, label: &'static str) -> u64;
+    /// Polled until it returns true. The handler keeps the waker if it wants to wake the task.
+    fn released(&self, ticket: u64, cx: &mut Context<'_>) -> bool;
+    /// A synchronous (non-async) code location was reached.
+    fn sync_point(&self, _label: &'static str) {}
+    /// TCP port of the EPMD to talk to instead of 4369.
+    fn epmd_port(&self) -> Option<u16> {
+        None
+    }
+}
+
+static HANDLERS: RwLock<Vec<(ThreadId, Arc<dyn Handler>)>> = RwLock::new(Vec::new());
+
+/// Installs `handler` for the calling thread (replacing a previous one).
+pub fn install(handler: Arc<dyn Handler>) {
+    let me = std::thread::current().id();
+    let mut all = HANDLERS.write().unwrap_or_else(|e| e.into_inner());
+    all.retain(|(t, _)| *t != me);
+    all.push((me, handler));
+}
+
+/// Removes the calling thread's handler.
+pub fn uninstall() {
+    let me = std::thread::current().id();
+    let mut all = HANDLERS.write().unwrap_or_else(|e| e.into_inner());
+    all.retain(|(t, _)| *t != me);
+}
+
+fn current() -> Option<Arc<dyn Handler>> {
+    let me = std::thread::current().id();
+    let all = HANDLERS.read().unwrap_or_else(|e| e.into_inner());
+    all.iter().find(|(t, _)| *t == me).map(|(_, h)| h.clone())
+}
+
+/// Future returned by [`point`].
+pub struct Point {
+    label: &'static str,
+    ticket: Option<u64>,
+}
+
+impl Future for Point {
+    type Output = ();
+
+    fn poll(mut self: Pin<&mut Self>, cx: &mut Context<'_>) -> Poll<()> {
+        let Some(handler) = current() else {
+            return Poll::Ready(());
+        };
+        let ticket = match self.ticket {
+            Some(t) => t,
+            None => {
+                let t = handler.arrive(self.label);
+                self.ticket = Some(t);
+                t
+            }
+        };
+        if handler.released(ticket, cx) {
+            Poll::Ready(())
+        } else {
+            Poll::Pending
+        }
+    }
+}
+
+/// A scheduling gate: ready at once unless a handler is installed for this thread.
+pub fn point(label: &'static str) -> Point {
+    Point {
+        label,
+        ticket: None,
+    }
+}
+
+pub fn sync_point(label: &'static str) {
+    if let Some(h) = current() {
+        h.sync_point(label);
+    }
+}
+
+pub fn epmd_port_override() -> Option<u16> {
+    current().and_then(|h| h.epmd_port())
+}
